@@ -134,7 +134,7 @@ func c09scenario(steps, bound int, gaps bool, yieldOnRelease ...bool) *explore.S
 }
 
 func init() {
-	register(&Check{ID: "C09",
+	register(&Check{ID: "C09", YieldOnRelease: true,
 		Scenarios: func(tier string) []*explore.Scenario {
 			if tier == "quick" {
 				return []*explore.Scenario{c09scenario(3, 2, false), c09scenario(2, 2, true), c09scenario(2, 2, true, true)}
